@@ -8,6 +8,7 @@ shape, R7 end-of-input consistency, R8 outside effects.
 from __future__ import annotations
 
 import ast
+import re
 from typing import Dict, List, Optional, Set, Tuple
 
 import re._constants as sc  # type: ignore
@@ -356,12 +357,23 @@ def _beliefs(R, f_escape: Escape):
         parsed = rx.parse(e.pattern, e.flags)
         alts = rx.top_alternatives(parsed)
         bad = []
+        unanchored = []
         for a in alts:
             has_eq = any(it[0] is sc.LITERAL and it[1] == ord('=') for it in a) or \
                 any(it[0] is sc.IN and rx.charclass(it) == {'='} for it in a)
             is_fence = any(it[0] is sc.MAX_REPEAT and it[1][0] >= 3 and len(rx.items(it[1][2])) == 1 and rx.is_literal(rx.items(it[1][2])[0], '`') for it in a)
             if not has_eq and not is_fence:
                 bad.append(a)
+            if not has_eq and is_fence:
+                # the alternative without `=` must be the whole statement: with re.MULTILINE, `^ ... $` also matches a run of
+                # lines in the middle of a statement (a fenced block inside an open bracket), which then passes validation
+                # with no `=` in it - and does not take parse_equation's early return for fenced blocks either
+                ml = bool(e.flags & re.MULTILINE)
+                its_ = [it for it in a]
+                starts = bool(its_) and its_[0][0] is sc.AT and (its_[0][1] is sc.AT_BEGINNING_STRING or (its_[0][1] is sc.AT_BEGINNING and not ml))
+                ends = bool(its_) and its_[-1][0] is sc.AT and (its_[-1][1] is sc.AT_END_STRING or (its_[-1][1] is sc.AT_END and not ml))
+                if not (starts and ends):
+                    unanchored.append(a)
         # and parse_equation returns early for fenced verbatim blocks
         callers = [g for g in R.repo.functions.values() if g.qualname.startswith(P + '.') and g.qualname.count('.') == P.count('.') + 1
                    and any(is_call(x, 'parse_equation_terms') for x in iter_own_nodes(g.node))]
@@ -378,6 +390,18 @@ def _beliefs(R, f_escape: Escape):
             if not ok_g and g.name != 'parse_equation':
                 raise Unknown(f'{g.qualname}: calls parse_equation_terms(); whether fenced blocks are kept away from it was not recognised')
             early = early and ok_g
+        # a guard at the split itself settles it whatever the validation lets through: `if '=' not in equation: raise <own error>`
+        fs = Fn(R, site.func)
+        sn = [n for n in fs.cfg.nodes if n.ast is not None and n.kind == 'stmt' and getattr(n.ast, 'lineno', None) == site.line]
+        if sn and (fs.holds(sn[0].id, "'=' in equation") or fs.holds(sn[0].id, "'=' not in equation", False)):
+            guards_ = [fs.cfg.nodes[tid] for (tid, _l) in fs.guards_of(sn[0].id)]
+            own = any(isinstance(fs.cfg.nodes[b].ast, ast.Raise) and fs.raised(fs.cfg.nodes[b]) in OWN_ERRORS for g_ in guards_ for (b, _lab) in g_.succ)
+            if own:
+                return (True, "the split is guarded by `'=' in equation` (a statement without one raises a parser error first)")
+        if unanchored and not bad and early:
+            return (False, 'the fenced-block alternative of equation_re is anchored to lines (`^`...`$` under re.MULTILINE), not to the whole statement: it also matches fence '
+                           'lines in the middle of a statement - `(\\n```\\n```\\n)` or a fenced block left open by an unbalanced bracket, "```\\nf(\\n```\\n)" - which passes '
+                           'validation without any `=` and is not a fenced block for parse_equation either, so the split at `=` fails with ValueError')
         return (not bad and early, 'every non-fence alternative of equation_re has a mandatory `=`; fenced blocks return before the split')
 
     def fact_index_colon(site: Site):
